@@ -11,6 +11,14 @@ CHECKS = {
    text="Same engine as C01 on the *share* grammar (fraction .3/.5/.7, gpu-memory, multi-fraction, whole-GPU requests against running / terminating / binding sharers on 1-2 GPU nodes with and without the gpu.memory label): after every real cycle, per physical device (GPU group) the demand of all attached pods plus this cycle's binds is recomputed from annotations and compared with the device; whole + shared devices <= node GPU count; N-device requests get N distinct groups; groups never span nodes.",
    note="Trusted: as C01; the environment labels bound consumers exactly as the binder does (plain label for 1 device, runai-gpu-group/<g> for multi-device).",
    technique="explicit-state model checking of the implementation (BFS over canonical cluster worlds, real scheduler cycle as transition relation)"),
+ "C03": dict(engine="clustermc", cat="model_checking", ref="§5 C03",
+   text="Explicit-state search (real scheduler cycles + environment events, depth 3) on the *gang* grammar (flat gangs, elastic surplus, 2 pod sets, nested pod sets, half-running gangs, victims that are gangs / elastic) at fill levels that force allocate, pipelining on terminating capacity, reclaim, preempt and consolidation. Oracle per fault-free cycle from world objects + decision log: a job with any bind ends with every leaf pod set >= min (active before - evicted + bound); a job with evictions (not stale-gang) is either >= min in every touched pod set or has no active pod left.",
+   note="Trusted: as C01. Active = non-terminating pod with nodeName or live BindRequest. API write failures excluded as in the statement.",
+   technique="explicit-state model checking of the implementation (BFS over canonical cluster worlds, real scheduler cycle as transition relation)"),
+ "C06": dict(engine="clustermc", cat="model_checking", ref="§5 C06",
+   text="Explicit-state search on the *victims* grammar: full nodes of running workloads over {preemptible, non-preemptible by priority or explicit field} x priority x 3 leaf queues in 2 departments x last-start {absent, old, recent} x elastic/gang, 4 min-runtime placements (leaf / parent / LCA child, preempt and reclaim), 1-2 pending preemptors; every Evict decision is checked against a reference implementation of the documented eligibility rules (preemptibility, min-runtime resolution incl. LCA, same-queue+strictly-lower priority for preempt, other queue for reclaim, preemptor placed in the same cycle, consolidation victim re-placed elsewhere).",
+   note="Trusted: as C01; min-runtimes are 0 or 1000h and last-start stamps years old or written during the run, so the wall clock cannot flip protection.",
+   technique="explicit-state model checking of the implementation (BFS over canonical cluster worlds, real scheduler cycle as transition relation)"),
 }
 
 NOT_APPLICABLE = []
